@@ -231,8 +231,9 @@ PROPS["C07"] = dict(
     level_note="Scope: sections not flagged SHF_COMPRESSED (property's own scoping). Not encoded (loops over the section table): section_header_by_name, symbol_table/dynamic_symbol_table/dynamic beyond their straight-line tail, symbol_version_table — outside this claim. "
                "Trusted: the summaries listed in assumptions; the executor itself (validated by seeded mutants and by replaying counterexamples natively).",
     groups=[
-        M(["L1", "L2", "L3", "L7"], ["L1.", "C07.", "L2.", "L3.", "L7."], bounds="all u64 ranges / header fields; cache pre-state arbitrary under Inv; all straight-line accessors x both classes; open_stream vs minimal_parse with all header fields symbolic; "
-          "looped accessors (symbol_table, dynamic_symbol_table, dynamic, section_headers_with_strtab) on section/program tables of 1..2 entries with every header field symbolic (ELF64)"),
+        M(["L1", "L2", "L3", "L7", "L7symverfixed"], ["L1.", "C07.", "L2.", "L3.", "L7."], bounds="all u64 ranges / header fields; cache pre-state arbitrary under Inv; all straight-line accessors x both classes; open_stream vs minimal_parse with all header fields symbolic; "
+          "looped accessors (symbol_table, dynamic_symbol_table, dynamic, section_headers_with_strtab, symbol_version_table, section_header_by_name) on section/program tables of 1..2 entries with every header field symbolic (ELF64); "
+          "symbol_version_table additionally on 3-entry tables holding .gnu.version/_r/_d (two fixed orders of the kinds, everything else symbolic, fault-free, empty cache, distinct ranges)"),
         M(["L7both"], ["C07.", "L7."], tier="thorough", bounds="looped accessors, both classes"),
         M(["L7symver3"], ["C07.", "L7."], tier="thorough", timeout_s=3300, bounds="symbol_version_table stream vs slice on 3-entry section tables (.gnu.version, _r and _d together), fault-free reader, empty cache, pairwise distinct section ranges"),
         M(["L1", "L2", "L5", "L8", "XCHECK"], ["XCHECK."], tier="thorough", bounds="every 7th z3-decided query of L1/L2/L5/L8 (at most 150) re-decided by cvc5 1.0 through SMT-LIB2; a disagreement makes the check inconclusive"),
@@ -351,8 +352,8 @@ PROPS["C05"] = dict(
           "L8 (SHN_XINDEX string table, sh_entsize gates of symtab/dynsym/.dynamic): section tables of 1..2 entries with every header field symbolic"),
         M(["L8both", "L9"], ["C05.", "L8.", "C13.versym"], tier="thorough", bounds="L8 for both classes; .gnu.version entsize gate"),
         K("core", ["c05::"], tier="thorough", functions=["ElfBytes::minimal_parse", "find_shdrs", "find_phdrs", "SectionHeaderTable::get", "SegmentTable::get"],
-          bounds="file <= 200 symbolic bytes, ELF64 LE, plain numbering; get(i) compared with the ABI record at off+i*entsize", timeout_s=3300, jobs=2),
-        K("core", ["c05t::"], tier="thorough", functions=["same, extended numbering (e_shnum==0, e_phnum==0xffff), ELF32"], bounds="file <= 200 symbolic bytes", timeout_s=3300, jobs=2),
+          bounds="file <= 144 symbolic bytes, ELF64 LE, plain numbering; Ok-iff oracle, len(), first/last word of entry i vs the raw bytes at off+i*entsize", timeout_s=3300, jobs=2),
+        K("core", ["c05t::"], tier="thorough", functions=["same, extended numbering (e_shnum==0, e_phnum==0xffff), ELF32"], bounds="file <= 144 symbolic bytes", timeout_s=3300, jobs=2),
     ],
     assumptions=MIRSYM_ASSUME,
 )
